@@ -146,6 +146,23 @@ def odd_name_specs(mat, root):
         specs.append(flowcheck.prepare(dict(tag="C18/o%03d" % len(specs), certs=[c], endpoints={"A": {"ca": {"tls": mat["trusted"], "host": host}}},
                                             global_opts={"env": {var: val}} if where == "global" else {}, steps=[("run", {"attempts": 1})],
                                             meta={"family": "hook environment naming a CA bundle", "pt": pt, "url_host": host, "where": where, "var": var})))
+    # the root that signs the server lies around the configuration under conventional names - next to the main file, in drop-in
+    # directories, in the certificate and account directories - and is named by none of the three sources: a file that merely exists
+    # is not "given"
+    def litter(sc):
+        base = sc.world.root
+        for rel in ("root_certs.d/site.pem", "root_certificates.d/site.pem", "roots.d/site.pem", "ca.d/site.pem", "trust.d/site.pem", "conf.d/site.pem", "certs.d/site.crt",
+                    "root.pem", "ca.pem", "ca-bundle.crt", "ca-certificates.crt", "roots.pem", "chain.pem", "certs/ca.pem", "accounts/ca.pem", "ssl/certs/site.pem"):
+            p = os.path.join(base, rel)
+            os.makedirs(os.path.dirname(p), exist_ok=True)
+            if not os.path.exists(p):
+                open(p, "w").write(mat["good_root_pem"])
+    for k in range(2):
+        host = "localhost" if k == 0 else "127.0.0.1"
+        pt = {"conf": [], "holder": "none", "server": "trusted", "badsrc": "cli", "filestate": "ok"}
+        specs.append(flowcheck.prepare(dict(tag="C18/o%03d" % len(specs), certs=[simple_cert("litter%d" % k)], endpoints={"A": {"ca": {"tls": mat["trusted"], "host": host}}},
+                                            steps=[("call", litter), ("run", {"attempts": 1})],
+                                            meta={"family": "the needed root lies around the configuration, named nowhere", "pt": pt, "url_host": host})))
     return specs
 
 
